@@ -98,9 +98,13 @@ func c11Fields(r *rand.Rand, t *jTable) (sel string, names []string) {
 	}
 }
 
-func c11GroupBy(r *rand.Rand, res time.Duration) (gb string, dims []string) {
+func c11GroupBy(r *rand.Rand, res time.Duration, exprBias bool) (gb string, dims []string) {
 	var parts []string
-	switch r.Intn(9) {
+	k := r.Intn(10)
+	if exprBias && r.Intn(2) == 0 {
+		k = []int{5, 6, 9}[r.Intn(3)]
+	}
+	switch k {
 	case 0: // no clause
 	case 1:
 		parts, dims = []string{"d1"}, []string{"d1"}
@@ -118,6 +122,8 @@ func c11GroupBy(r *rand.Rand, res time.Duration) (gb string, dims []string) {
 		parts, dims = []string{"d1", "d3"}, []string{"d1", "d3"}
 	case 8:
 		parts, dims = []string{"*"}, nil
+	case 9:
+		parts, dims = []string{"SUBSTR(d1, 0, 1) AS ss", "d2"}, []string{"d2", "ss"}
 	}
 	if r.Intn(3) == 0 {
 		parts = append(parts, fmt.Sprintf("period(%v)", res*time.Duration(1+r.Intn(4))))
@@ -132,7 +138,8 @@ func genPlanQuery(r *rand.Rand, t *jTable) string {
 	res := time.Duration(t.ResNS)
 	sel, names := c11Fields(r, t)
 	from := "t"
-	if r.Intn(6) == 0 {
+	sub := r.Intn(4) == 0
+	if sub {
 		// FROM subquery
 		inner := "SELECT * FROM t"
 		if r.Intn(2) == 0 {
@@ -154,7 +161,7 @@ func genPlanQuery(r *rand.Rand, t *jTable) string {
 	if r.Intn(3) == 0 {
 		q += " WHERE " + c11Where(r)
 	}
-	gb, dims := c11GroupBy(r, res)
+	gb, dims := c11GroupBy(r, res, sub)
 	if r.Intn(8) == 0 && !strings.Contains(gb, "*") {
 		// crosstab
 		if gb == "" {
